@@ -839,7 +839,7 @@ def _check(ctx):
             return False
         nuse = 0
         for blk in sorted(blocks):
-            for st_ in [x for x in walk_local(fp2) if isinstance(x, ast.stmt) and not isinstance(x, (ast.If, ast.With, ast.Try, ast.For, ast.While))]:
+            for st_ in [x for x in walk_local(fp2) if isinstance(x, (ast.Assign, ast.AugAssign, ast.AnnAssign, ast.Expr, ast.Return))]:
                 unpacks = [c_ for c_ in ast.walk(st_) if isinstance(c_, ast.Call) and call_name(c_) in ("struct.unpack", "unpack", "struct.unpack_from", "unpack_from")
                            and len(c_.args) >= 2 and src(c_.args[1]) == blk]
                 slices = [x for x in ast.walk(st_) if isinstance(x, ast.Subscript) and src(x.value) == blk]
